@@ -282,7 +282,10 @@ class Ctx(object):
                 ax.is_monotonic()
         if register and getattr(self, 'c15_mode', False) and not attrs:
             # C15: operands carry metadata with mutable values ...
-            attrs = {'hist': [1, [2, 3]], 'meta': {'k': [4]}}
+            npx = self.np
+            attrs = {'hist': [1, [2, 3]], 'meta': {'k': [4]},
+                     # NumPy scalars / arrays nested inside containers (their *types* belong to the metadata too)
+                     'npmeta': [npx.int64(7), {'a': npx.float64(1.5), 'arr': npx.array([1, 2])}, (npx.int32(3),)]}
             a.attrs.update(attrs)
         if register:
             import copy as _copy
@@ -311,7 +314,7 @@ class Ctx(object):
                 if k in a.attrs:
                     oks.append(a.attrs[k] is v or a.attrs[k] == v)
             for k, v in op.get('attrs_snapshot', {}).items():
-                oks.append(k in a.attrs and a.attrs[k] == v)
+                oks.append(k in a.attrs and self.deep_same(a.attrs[k], v))
             for ax, at in zip(a.axes, op.get('axis_attrs', [])):
                 oks.append(dict(ax.attrs) == at)
             sib = op.get('sibling')
@@ -320,6 +323,18 @@ class Ctx(object):
                 for ax, l in zip(sib.axes, list(reversed(op['labels']))):
                     oks.append(self.eqlist(ax.values.tolist(), l))
         return self.AND(*oks)
+
+    def deep_same(self, x, y):
+        """type-aware structural equality of metadata values (containers recursively; arrays by dtype kind, shape and content)"""
+        if type(x) is not type(y):
+            return False
+        if isinstance(x, dict):
+            return set(x.keys()) == set(y.keys()) and all(self.deep_same(x[k], y[k]) for k in x)
+        if isinstance(x, (list, tuple)):
+            return len(x) == len(y) and all(self.deep_same(p, q) for p, q in zip(x, y))
+        if hasattr(x, 'tolist') and hasattr(x, 'dtype') and hasattr(x, 'shape'):
+            return x.dtype == y.dtype and tuple(x.shape) == tuple(y.shape) and bool(self.eq(x.tolist(), y.tolist()) if not isinstance(x.tolist(), list) else self.eqlist(self.flat(x.tolist()), self.flat(y.tolist())))
+        return bool(x == y)
 
     # ------------------------------------------------------------------ observing results
     def kind_of(self, arr):
